@@ -16,7 +16,7 @@ func init() {
 		Technique: "property-based testing (rapid): hostile literal text interleaved with constructs vs reference evaluator; metamorphic identity check for delimiter-free templates",
 		Rule: "programs whose text chunks come from a hostile alphabet (multi-byte UTF-8, LF/CR/tab, lone { } % #, closing delimiters, quotes, backslashes) interleaved with prints, comments, verbatim sections and every body-carrying tag nested to depth 4; " +
 			"oracle: reference evaluator output == stick output byte for byte; delimiter-free templates must render to themselves. " +
-			"Non-trivial: >= 2 text chunks, at least one inside a nested body, and a non-ASCII or lone-delimiter byte in a chunk, or a comment, or a verbatim section containing a delimiter; distinct by program.",
+			"Non-trivial: >= 2 text chunks, at least one inside a nested body, and a non-ASCII or lone-delimiter byte in a chunk, or a comment, or a verbatim section containing a delimiter; distinct by program. Also: a fixed family of large instances (3000 alternating chunks, a 560 KB text run, 400 KB verbatim body); one case in five through ExecuteSafe, one in six through a user-written Loader whose readers return data together with EOF / one byte / seven bytes / zero-length reads.",
 		Assumptions: []string{"reference evaluator trusted inside the agreement region"},
 	}
 	sub := modelSub(p, "text", compareOpts{}, func(cs *progCase, res *m.Result) bool {
